@@ -448,6 +448,10 @@ impl S3 for FileSystem {
 
         let Some(body) = body else { return Err(s3_error!(IncompleteBody)) };
 
+        if self.get_bucket_path(&bucket)?.exists().not() {
+            return Err(s3_error!(NoSuchBucket));
+        }
+
         let mut checksum: s3s::checksum::ChecksumHasher = default();
         if input.checksum_crc32.is_some() {
             checksum.crc32 = Some(default());
